@@ -32,7 +32,7 @@ func newPes(in []byte) Val {
 	return VOk(pesView(h, in, orig))
 }
 
-func pktOf(b []byte) (*packet.Packet, bool) {
+func pesPktOf(b []byte) (*packet.Packet, bool) {
 	if len(b) != packet.PacketSize {
 		return nil, false
 	}
@@ -58,7 +58,7 @@ func init() {
 		return newPes(in)
 	})
 	register("pes.pkt", func(a []Val) Val {
-		p, ok := pktOf(a[0].B)
+		p, ok := pesPktOf(a[0].B)
 		if !ok {
 			return VBad()
 		}
@@ -72,7 +72,7 @@ func init() {
 		return VOk(VB(hb))
 	})
 	register("pes.aligned", func(a []Val) Val {
-		p, ok := pktOf(a[0].B)
+		p, ok := pesPktOf(a[0].B)
 		if !ok {
 			return VBad()
 		}
@@ -89,7 +89,7 @@ func init() {
 		return VOk(VL(VB(b), protect(func() Val { return newPes(b) })))
 	})
 	register("pes.withpes", func(a []Val) Val {
-		p, ok := pktOf(a[0].B)
+		p, ok := pesPktOf(a[0].B)
 		if !ok {
 			return VBad()
 		}
